@@ -1537,6 +1537,15 @@ def main(ctx):
               "continental": CONTINENTAL},
         "G": {"projections": list(PROJ_G), "geo_pixel_deg": RES_G, "lat_overhang": LAT_G, "lon_overhang": LON_G,
               "projected_pixel_deg_equiv": PDEG_G, "padding_align": PADAL_G, "directions": ["geo-src", "geo-dst"], "max_geo_raster": MAX_G},
+        "A-options": {"relations": [list(map(str, x)) for x in REL_O], "padding_x_align": "{None,0,1,3} x {None,0,1,2,4}",
+                      "extra_options": [dict(e) for e in EXTRA_O]},
+        "A-windows": {"scales": WINDOWS, "source": SRC_A[5][0]},
+        "A-pixels": {"sources": [SRC_A[3][1], SRC_A[4][1]], "rotations": "0,15,180"},
+        "canvas": {"configs": {k: list(v) for k, v in CANVAS.items()}, "region_positions": REGION_POS},
+        "curvature": {"configs": {k: list(v) for k, v in CURV.items()}, "sizes": "800 (quick) / 600, 1000 (thorough)"},
+        "E": {"utm33_encodings": ENC_UTM + ("stale-id-wkt", "custom-tmerc17-no-code"), "grid_encodings": GRID_ENC, "relations": list(REL_E)},
+        "N": {"points": {k: [list(map(str, q)) for q in v] for k, v in PTS_N.items()}, "layouts": LAYOUT_N},
+        "GCP": {"which": WHICH_GCP, "control_points": "5x5 grid generated from an exact affine"},
         "L": {"shapes": SHAPES_L, "relations": list(REL_L), "shifts_px": SUB_L, "placements": {k: list(v) for k, v in PLACE_L.items()},
               "options": list(OPTS_L), "quick_2000x2000_relations": REL_L_QUICK_SQUARE},
         "H": {"pairs": {k: list(v) for k, v in PAIRS_H.items()}, "interfering_calls": list(CALLS_H), "max_sequence": "2 (quick) / 3 (thorough)",
@@ -1554,6 +1563,11 @@ def main(ctx):
         "destination->source Jacobian; same-CRS cases are built without shear so this equals the column norms",
         "non-linear scale is compared at the centre of the reported roi_dst (the 'overlap'); nothing is compared when it is empty",
         "only an upper bound on read_shrink is stated by the property; no lower bound is demanded",
+        "harness tolerances are in pixel units (1e-6 px for locations and transform.back, 1e-9 relative for linear scale), never "
+        "scaled by the coordinate magnitude; the harness subtracts the affine origin before dividing by the pixel size, so with the "
+        "smallest pixel enumerated (4.5e-6 deg at 147 deg) its own rounding is ~1e-8 px",
+        "control-point rasters are generated from an exact affine so that the harness mapping does not depend on the library's "
+        "polynomial fit; non-affine GCP sets are not enumerated",
         "histories (slice H): a plan computed twice in one case with interfering public calls in between must be identical "
         "(differential, exact); because E1 workers are long-lived, both plans are additionally judged by the state-independent "
         "clauses, with scale2 compared at 1e-6 relative against central differences (h = 1 px, the documented radius) of the "
